@@ -166,7 +166,7 @@ package keeper
 //@ loop #1
 //@   invariant !isUpdate ==> state(ctx) == old(state(ctx))
 //@   invariant traceN() >= old(traceN())
-//@   step[C04.iafo.persist] (traceN() == old(traceN()) + 1 && (isUpdate ==> get(ctx, "assets", cat(g("x/assets/types.KeyPrefixOperatorAssetInfos"), res_Key_0)) == res_MustMarshal_0)) ||
+//@   step[C04.iafo.persist,C01.iafo.persist] (traceN() == old(traceN()) + 1 && (isUpdate ==> get(ctx, "assets", cat(g("x/assets/types.KeyPrefixOperatorAssetInfos"), res_Key_0)) == res_MustMarshal_0)) ||
 //@        (assetsFilter != nil && traceN() == old(traceN()) && state(ctx) == old(state(ctx)))
 
 // ---------------------------------------------------------------------------------------------
